@@ -58,6 +58,9 @@ Judge_forms(c) ==
   ELSE Concat(MapSeq(LAMBDA f : JudgeForm(c, P, f), c.forms))
        \* the caller's dictionary after parsing (whole, or piece by piece) holds exactly the names the specification defines
        \o << Tri("C12.dictionary.whole", { c.dict_mono[i] : i \in 1..Len(c.dict_mono) } = DOMAIN P.st.names),
+             \* the pieces parse against the shared dictionary at all (whichever way they were registered)
+             IF "piecewise_error" \in DOMAIN c THEN Cl("C12.piecewise_parse", "fail")
+             ELSE IF "dict_after" \in DOMAIN c THEN Cl("C12.piecewise_parse", "ok") ELSE Cl("C12.piecewise_parse", "skip"),
              IF "dict_after" \in DOMAIN c
              THEN Tri("C12.dictionary.piecewise", { c.dict_after[i] : i \in 1..Len(c.dict_after) } = DOMAIN P.st.names)
              ELSE Cl("C12.dictionary.piecewise", "skip") >>
